@@ -133,9 +133,9 @@ func runC06(env *Env, tier string) {
 			continue
 		}
 		T = a.engT()
-		mt := []string{"D", "0", "1", "2", "4g", "4r", "5"}[ch.Weighted("type", []int{6, 2, 2, 1, 1, 1, 1})]
+		mt := []string{"D", "0", "1", "2", "4g", "4r", "5", "3"}[ch.Weighted("type", []int{6, 2, 2, 1, 1, 1, 1, 2})]
 		nd := ch.Weighted("ndef", []int{2, 6, 2, 1})
-		seqOK := mt == "D" || mt == "0" || mt == "1" || mt == "4g"
+		seqOK := mt == "D" || mt == "0" || mt == "1" || mt == "4g" || mt == "3"
 		o, defects, seqDefect := plantDefects(env, c, nd, seqOK, s, pre42, mt)
 		if recovering {
 			// "SendingTime ... (when checking is enabled and no replay is in progress)"
@@ -174,6 +174,8 @@ func runC06(env *Env, tier string) {
 		case "4r":
 			typ = "4"
 			body = []wire.Field{wire.FI(36, T+2)}
+		case "3":
+			body = []wire.Field{wire.FI(45, 1), wire.F(58, "peer rejects something")}
 		}
 		appBefore := len(s.E.App.Snapshot())
 		b, _ := p.Build(typ, body, o)
@@ -193,7 +195,7 @@ func runC06(env *Env, tier string) {
 				if mt == "D" && ac.ID != id {
 					continue
 				}
-				if mt == "1" || mt == "0" || mt == "2" || mt == "4g" || mt == "4r" || mt == "5" {
+				if mt == "1" || mt == "0" || mt == "2" || mt == "4g" || mt == "4r" || mt == "5" || mt == "3" {
 					if !recovering || len(defects) > 0 {
 						// identity of an administrative message: its type within this processing window
 					}
